@@ -10,5 +10,5 @@ mkdir -p .work evidence replays
 .work/extract -repo "${VERIF_REPO:-/repo}" -out lean/ArtVerif/Gen
 cp "${VERIF_REPO:-/repo}/go.sum" harness/go.sum
 (cd harness && go build -tags verif -o ../.work/artdrv .)
-(cd lean && lake build ArtVerif driver 2>&1 | grep -v -i "conda" | tail -5)
+(cd lean && lake build ArtVerif driver tmplrender 2>&1 | grep -v -i "conda" | tail -5)
 echo "setup done"
